@@ -153,7 +153,7 @@ package http2
 //@ ghost var handlerStarts seq[uint32]
 //@ writers [C13:last-client-stream-id-writers] serverConn fields maxClientStreamID only (*serverConn).processHeaders,(*serverConn).upgradeRequest,(*serverConn).processFrameFromReader
 //@ writers [C13:connection-wiring-set-once] serverConn fields hs,srv,conn,handler only (*Server).serveConn
-//@ writers [C13:header-frame-immutable-while-processed] MetaHeadersFrame fields HeadersFrame,Truncated only (*Framer).readMetaFrame
+//@ writers [C13:header-frame-immutable-while-processed] MetaHeadersFrame fields HeadersFrame,Truncated,Fields only (*Framer).readMetaFrame
 //@ -- stopping a timer / re-prioritising in the write scheduler do not touch the connection's stream bookkeeping
 //@ func timer.Stop :: t -> r
 //@   trusted
